@@ -136,6 +136,8 @@ func runC13(w *World, r *Report) {
 	r.Rule("stamped", "size functions and encoders do not read another object's length field that is re-assigned when that object is sized or encoded", 150)
 	r.Rule("settled", "state an encoder stores into a part of the value is stored before that part is encoded", 10)
 	stampedReadRule(w, r)
+	r.Rule("selfstamp", "an encoder does not itself change state its kind's size function reads", 10)
+	selfStampRule(w, r)
 	nMethods := 0
 	for _, k := range w.KindsL {
 		type m struct {
@@ -368,4 +370,76 @@ func stampedReadRule(w *World, r *Report) {
 		}
 	}
 	r.Stats["stamped_fields"] = len(stamped)
+}
+
+// selfStampRule: a kind's size function does not read a field that the kind's encoder assigns itself (not
+// through a call of the size function) a value other than the field's own. Otherwise the size asked before
+// the first encoding differs from the size asked after it (a floor or a rounding applied by the encoder only).
+func selfStampRule(w *World, r *Report) {
+	for _, k := range w.KindsL {
+		if k.Len == nil || k.Marshal == nil || !k.OwnMarshal {
+			continue
+		}
+		ls := w.LenSummary(k)
+		efi := w.FuncOf(k.Marshal)
+		if ls == nil || ls.Term == nil || efi == nil {
+			continue
+		}
+		reads := map[string]bool{}
+		w.ExpandLens(ls.Term, 0).HasAtom(func(a *Atom) bool {
+			if a.Kind == "val" || a.Kind == "len" {
+				reads[a.Path] = true
+			}
+			if a.Kind == "ite" {
+				for p := range condPaths(a.Cond) {
+					reads[p] = true
+				}
+			}
+			return false
+		})
+		if len(reads) == 0 {
+			continue
+		}
+		fs := w.Interpret(efi, "encode")
+		bad := ""
+		var badPos token.Pos
+		n := 0
+		for _, s := range fs.Stores {
+			if !reads[s.Path] || s.Fn != efi.Key {
+				continue // stores the size function performs itself are the same on every call
+			}
+			n++
+			if iv, ok := s.Val.(IntV); ok && s.Op == "=" {
+				if at := iv.T.SingleAtom(); at != nil && at.Kind == "val" && at.Path == s.Path && iv.T.K[at.Key()] == 1 && iv.T.C == 0 {
+					continue // identity
+				}
+			}
+			if bad == "" {
+				bad = fmt.Sprintf("%s assigns %s (%s %s), which %s reads", efi.Key, s.Path, s.Op, s.Val.valString(), ls.Fn.Key)
+				badPos = s.Pos
+			}
+		}
+		if bad != "" {
+			r.Fail(VViolation, "selfstamp", k.Name, "", w.Pos(badPos), bad+": the size reported before the first encoding is computed from the old value and the size reported afterwards from the new one")
+		} else if n > 0 || len(fs.Stores) > 0 {
+			r.OK("selfstamp", k.Name, "", w.Pos(efi.Decl.Pos()), "the encoder's own stores do not change anything the size function reads", true)
+		}
+	}
+}
+
+// condPaths extracts the "$..." paths mentioned in a rendered condition.
+func condPaths(c string) map[string]bool {
+	out := map[string]bool{}
+	for i := 0; i < len(c); i++ {
+		if c[i] != '$' {
+			continue
+		}
+		j := i + 1
+		for j < len(c) && (c[j] == '.' || c[j] == '_' || c[j] >= 'a' && c[j] <= 'z' || c[j] >= 'A' && c[j] <= 'Z' || c[j] >= '0' && c[j] <= '9') {
+			j++
+		}
+		out[c[i:j]] = true
+		i = j
+	}
+	return out
 }
